@@ -114,7 +114,13 @@ def ctx_view(task):
 
 def emit_tokens(label, pattern: str) -> list:
     """Tokens a task with this emit pattern makes visible (one per log/print/err step)."""
-    return [f'<{label}.{i}>' for i, step in enumerate(pattern.split('+')) if step in ('log', 'warn', 'print', 'err')]
+    out = []
+    for i, step in enumerate(pattern.split('+')):
+        if step in ('log', 'warn', 'print', 'err', 'iprint', 'nprint'):
+            out.append(f'<{label}.{i}>')
+        elif step.startswith('burst'):
+            out.extend(f'<{label}.{i}.{j}>' for j in range(int(step[5:])))
+    return out
 
 
 def _emit(task):
@@ -131,6 +137,13 @@ def _emit(task):
             logger.warning(f'warn{tok}')
         elif step == 'print':
             print(f'out{tok}')
+        elif step == 'iprint':                      # an indented line
+            print(f'    out{tok}')
+        elif step == 'nprint':                      # text starting with a blank line
+            print(f'\nout{tok}')
+        elif step.startswith('burst'):
+            for j in range(int(step[5:])):
+                logger.info(f'b<{task.label}.{i}.{j}>')
         elif step == 'flush':
             sys.stdout.flush()
         elif step == 'err':
@@ -179,6 +192,8 @@ def _run(self):
         # exception instead of the exception itself is visible
         raise Boom(self.label) from KeyError('inner-cause')
     value = ('N', k[0], k[1], ctx_view(self), tuple(vals), WORLD.epoch)
+    if self.context is not None and self.context.get('_return_self'):
+        value = value + (self,)          # a result that references the task object itself
     WORLD.rec('end', k)
     return value
 
@@ -188,6 +203,15 @@ def _filter_even(self, context):
     after the parity of the label (and harness-private '_' keys)."""
     keep = f'k{self.label % 2}'
     return {k: v for k, v in context.items() if k == keep or k.startswith('_')}
+
+
+def _filter_counting(self, context):
+    """A non-idempotent filter (TG): every application bumps a counter, so applying it
+    twice - or not at all - is visible inside run()."""
+    out = dict(context)
+    out['applied'] = context.get('applied', 0) + 1
+    out['mine'] = f'for-{self.label}'
+    return out
 
 
 def _post_init(self):
@@ -249,9 +273,10 @@ TN = _mk('TN', cache=None)              # never cached
 TM = _mk('TM', cache=None, max_parallel=1)
 TF = _mk('TF', extra={'filter_context': _filter_even})
 TP = _mk('TP', extra={'post_init': _post_init})
+TG = _mk('TG', extra={'filter_context': _filter_counting})
 TJ = _mk('TJ', cache=JsonCache())
 T2 = _mk('T2', cache=labtech.cache.PickleCache(pickle_protocol=2))
 
-TYPES = {c.__name__: c for c in (TA, TB, TC, TD, TN, TM, TF, TP, TJ, T2)}
+TYPES = {c.__name__: c for c in (TA, TB, TC, TD, TN, TM, TF, TP, TJ, T2, TG)}
 MAX_PARALLEL = {n: c._lt.max_parallel for n, c in TYPES.items()}
 CACHEABLE = {n: not isinstance(c._lt.cache, labtech.cache.NullCache) for n, c in TYPES.items()}
